@@ -270,3 +270,5 @@ def run(ctx):
     ctx.borrow("C17", {"C17.R1": "C19.R6"}, "types registered in the caller's name table by a failed attempt are what lets a type used from several places resolve on the retry: the loader may add to that table, never clear or roll it back", only=lambda o: o["where"].split(":")[1].split(".")[-1] in c19_funcs if ":" in o["where"] else False)
 
 
+
+    ctx.borrow("C11", {"C11.R3": "C19.R7"}, "the loader learns which file to load from the UnknownType raised for the qualified name <namespace>.<name>: a reference that is resolved any other way (or never reported as unknown) is never loaded from the repository")
